@@ -41,7 +41,7 @@ pub fn rung_dominates(a: &str, b: &str) -> bool {
 
 pub fn scenarios(prop: &str, tier: Tier) -> Vec<ScenarioDef> {
     match prop {
-        "C01" => crate::c01::scenarios("C01", tier),
+        "C01" => { let mut v = crate::c01::scenarios("C01", tier); v.extend(crate::c16::mc_contended_scenarios("C01", tier)); v }
         "C02" => crate::c01::scenarios("C02", tier),
         "C03" => crate::c03::scenarios(tier),
         "C04" => crate::c04::scenarios(tier),
